@@ -33,7 +33,11 @@ TARGETS = {
     'pass1': [('src/builder/pass1.rs', 'next_address', None), ('src/builder/pass1.rs', 'pass_1_internal', None), ('src/builder/pass1.rs', 'build_pass_1', None)],
     'pass2': [('src/builder/pass2.rs', 'pass_2_internal', None), ('src/builder/pass2.rs', 'build_pass_2', None)],
     'build': [('src/builder/mod.rs', 'build_from_parsed', None)],
-    'pass0': [('src/builder/pass0.rs', 'pass0_internal', None), ('src/builder/pass0.rs', 'build_pass_0', None)],
+    'pass0': [('src/builder/pass0.rs', 'pass0_internal', None), ('src/builder/pass0.rs', 'build_pass_0', None), ('src/builder/pass0.rs', 'macro_expand', None),
+              ('src/builder/pass0.rs', 'as_pass0_result', 'Pass0Context'), ('src/builder/pass0.rs', 'add_segment', 'Pass0Context'),
+              ('src/builder/pass0.rs', 'push_to_last', 'Pass0Context')],
+    'mexp': [('src/parser.rs', 'as_parse_result', 'ParseContext'), ('src/parser.rs', 'new', 'ParseContext'), ('src/parser.rs', 'add_segment', 'ParseContext'),
+             ('src/parser.rs', 'new', 'Segment'), ('src/parser.rs', 'is_empty', 'Segment'), ('src/parser.rs', 'parse_str', None), ('src/parser.rs', 'parse_file', None)],
     'cond': [('src/parser.rs', 'skip', None), ('src/parser.rs', 'parse_iter', None)],
     'inc': [('src/parser.rs', 'parse_file_internal', None)],
     'dir': [('src/directive.rs', 'parse', 'Directive')],
